@@ -233,7 +233,13 @@ def run(index: RepoIndex, rep) -> None:
                           'datetime.now', 'datetime.datetime.now'):
                     bad = f'{fs}: a nondeterministic global source'
                 if fs == 'id':
-                    bad = 'id(): address-dependent value'
+                    # an address used only to pick an entry of a table (`memo[id(f)]`) selects
+                    # storage; it is a value of the computation anywhere else
+                    scope = fn.node if fn is not None else mod.tree
+                    as_key = any(isinstance(p_, ast.Subscript) and p_.slice is n
+                                 for p_ in ast.walk(scope))
+                    if not as_key:
+                        bad = 'id(): address-dependent value'
                 if fs == 'hash' and not (fn is not None and fn.name == '__hash__'):
                     bad = 'hash() outside __hash__: varies with PYTHONHASHSEED'
                 if bad:
